@@ -6,6 +6,7 @@ sys.path.insert(0, HERE)
 props = [json.loads(l) for l in open(os.path.join(HERE, "properties.jsonl"))]
 na = json.load(open(os.path.join(HERE, "tools", "not_applicable.json")))
 hooks = json.load(open(os.path.join(HERE, "tools", "hooks.json")))
+ready = set(json.load(open(os.path.join(HERE, "tools", "ready.json"))))
 checks, notapp, engines = [], [], {}
 for p in props:
     pid = p["id"]
@@ -13,7 +14,7 @@ for p in props:
     if pid in na:
         notapp.append(dict(property_id=pid, reason=na[pid]))
         continue
-    if not os.path.exists(path):
+    if not os.path.exists(path) or pid not in ready:
         notapp.append(dict(property_id=pid, reason="specification not yet bound to the implementation (see DESIGN.md section 9); a specification nothing binds to the code decides nothing and is not claimed"))
         continue
     m = importlib.import_module("harness.props." + pid.lower())
